@@ -186,7 +186,67 @@ def _parse_table(html: str):
     return rows
 
 
+WRAPS = {
+    "none": ("", ""), "if": ("{% if true %}", "{% endif %}"), "for": ("{% for w in (1..1) %}", "{% endfor %}"),
+    "case": ("{% case 1 %}{% when 1 %}", "{% endcase %}"), "unless": ("{% unless false %}", "{% endunless %}"),
+    "capture": ("{% capture c %}", "{% endcapture %}{{ c }}"),
+}
+SILENT_BODIES = {"assign": "{% assign q = i %}", "blank": " \n ", "break": "{% break %}", "empty": "", "text": "x"}
+
+
+def eval_else(case) -> Verdict:
+    """The else block is rendered exactly when no item is visited - wherever the loop stands and whatever its body."""
+    v = Verdict()
+    env = envs.make_env(CFG)
+    n = case["n"]
+    tag = case.get("tag", "for")
+    opener, closer = WRAPS[case["wrap"]]
+    body = SILENT_BODIES[case["body"]]
+    args = "".join(f" {k}: {val}" for k, val in case.get("args", []))
+    if tag == "for":
+        src = opener + "{% for i in items" + args + " %}" + body + "{% else %}E{% endfor %}" + closer + "|"
+    else:
+        src = opener + "{% tablerow i in items" + args + " %}" + body + "{% endtablerow %}" + closer + "|"
+    items = list(range(n))
+    idx = R.segment(n, dict(case.get("args", [])).get("offset", 0) or 0, dict(case.get("args", [])).get("limit"))
+    visited = len(idx)
+    o = oc.outcome_of(lambda: env.from_string(src).render(items=items))
+    if o[0] != "ok":
+        v.fail(f"else:raises:{o[1]}", f"{src!r} items={items}: {oc.short(o)!r:.150}")
+    elif tag == "for":
+        per = {"text": "x"}.get(case["body"], "")
+        want = ("E" if visited == 0 else per * (1 if case["body"] == "break" else visited)) + "|"
+        if case["body"] == "break":
+            want = ("E" if visited == 0 else "") + "|"
+        if o[1].replace("\n", "").replace(" ", "") != want:
+            v.fail(f"else:{'missing' if visited == 0 else 'spurious'}:{case['wrap']}", f"{src!r} with {n} items ({visited} visited): expected {want!r}, observed {o[1]!r}")
+    v.nontrivial = visited == 0
+    v.labels.append("else:" + case["wrap"])
+    return v
+
+
+def eval_aborted(case) -> Verdict:
+    """A loop that is left through an error (tolerated in lax mode) must not stay on the loop stack."""
+    v = Verdict()
+    env = envs.make_env({"mode": "lax", "twice": False})
+    bad = {"filter": "{{ 1 | divided_by: 0 }}", "limit": "{% for z in items limit: 'x' %}{% endfor %}", "break-ok": "{% break %}"}[case["bad"]]
+    tag_o, tag_c = ("{% for a in (1..3) %}", "{% endfor %}") if case["outer"] == "for" else ("{% tablerow a in (1..3) %}", "{% endtablerow %}")
+    src = tag_o + "x" + bad + tag_c + "{% for j in (1..2) %}[{{ forloop.parentloop.index }}|{{ forloop.parentloop.length }}|{{ forloop.index }}]{% endfor %}"
+    o = oc.outcome_of(lambda: env.from_string(src).render(items=[1, 2]))
+    if o[0] != "ok":
+        v.fail(f"aborted:raises:{o[1]}", f"{src!r}: {oc.short(o)!r:.150}")
+    elif not o[1].endswith("[||1][||2]"):
+        v.fail("aborted:stale-parentloop", f"{src!r}: the second loop has no enclosing loop, expected ...[||1][||2], observed {o[1]!r}")
+    v.nontrivial = True
+    v.labels.append("aborted-loop")
+    return v
+
+
 def evaluate(case) -> Verdict:
+    if case["kind"] == "else":
+        return eval_else(case)
+    if case["kind"] == "aborted":
+        return eval_aborted(case)
     v = Verdict()
     env = envs.make_env(CFG)
     kind = case["kind"]
@@ -305,7 +365,23 @@ def random_cases(draw):
     return {"kind": "for", "coll": {"t": t, "n": n}, "loops": loops}
 
 
+def special_cases():
+    for wrap in WRAPS:
+        for body in SILENT_BODIES:
+            for n in (0, 1, 3):
+                yield {"kind": "else", "wrap": wrap, "body": body, "n": n}
+            yield {"kind": "else", "wrap": wrap, "body": body, "n": 3, "args": [["limit", 0]]}
+            yield {"kind": "else", "wrap": wrap, "body": body, "n": 3, "args": [["offset", 5]]}
+            yield {"kind": "else", "wrap": wrap, "body": body, "n": 2, "args": [["offset", 1], ["limit", 5]]}
+    for outer in ("for", "tablerow"):
+        for bad in ("filter", "limit", "break-ok"):
+            yield {"kind": "aborted", "outer": outer, "bad": bad}
+
+
 def campaign(ctx: core.Ctx, tier: str, shard: int, nshards: int) -> None:
+    for i, case in enumerate(special_cases()):
+        if i % nshards == shard:
+            ctx.run(case, enumerated=True)
     _enumerate(ctx, shard, nshards, tier)
     core.drive(random_cases(), ctx.run, n=(4000 if tier == "quick" else 60000) // nshards, seed=core.sub_seed(ctx.seed, shard))
 
@@ -318,7 +394,9 @@ def finish_kwargs(ctx: core.Ctx, tier: str) -> dict:
             + f") of length 0..{maxn} x limit in {{absent, -3..len+3, 1e20}} x offset in the same set x reversed, "
             "and tablerow with cols in {absent, 0, -1, 1..len+2}; plus random sequences of 1-3 loops sharing an "
             "offset:continue key, break/continue at a chosen index, a nested loop printing parentloop, and "
-            "limit/offset/cols given as literal, int variable or numeric string. Every loop body prints item and "
+            "limit/offset/cols given as literal, int variable or numeric string; for-else with silent bodies (assign, "
+            "whitespace, break, nothing) under if/for/case/unless/capture; a loop left through a tolerated error followed "
+            "by a loop reading forloop.parentloop. Every loop body prints item and "
             "all helpers; the whole output is compared with the reference model's. Non-trivial = limit or offset "
             "present and outside [1, len-1], or continue used, or reversed with a limit."
         ),
